@@ -66,18 +66,39 @@ Theorem C02_one_owner :
 Proof. exact owns_functional. Qed.
 Print Assumptions C02_one_owner.
 
-(* Uniqueness per VRF — PARTIAL: stated for every state in which each live session's told/recorded address
-   is owned by it in the registry ([told_is_owned], i.e. C02_told_is_recorded as an invariant).  The three
-   theorems above show that every registry operation of the Repaired model establishes/preserves ownership;
-   MISSING: the induction over [reach Repaired] that threads them through step_pa/pi/pt/id/is/rel (session
-   bookkeeping), so [told_is_owned] is a hypothesis here instead of a consequence of reachability. *)
-Theorem C02_unique_partial :
-  forall st s1 s2 f x,
-  reg_ok (st_reg st) -> pools_disjoint (st_reg st) -> told_is_owned st ->
-  In s1 (st_sess st) -> In s2 (st_sess st) -> s_vrf s1 = s_vrf s2 ->
-  holds s1 f = Some x -> holds s2 f = Some x -> s_id s1 = s_id s2.
-Proof. exact unique_from_ownership. Qed.
-Print Assumptions C02_unique_partial.
+(* Hypotheses on the configuration (not on the history): pool ids distinct, pools well-formed at start (true of
+   every range pool: C02_initial_pools_wf; PD pools need the index round-trip [geom_ok]), address-family pools are
+   range pools [kinds_ok], subscriber ids distinct, sessions start without addresses.
+
+   C02_told_is_recorded — in EVERY state reachable in the Repaired model by ANY history over the whole event
+   alphabet (PA PI PT ID IQ IS IR IT IA, any arguments, any candidate choice), for every session:
+   what it holds (PPPoE: recorded IPv4/IPv6/PD; IPoE: last OFFER/ACK yiaddr, advertised IA_NA/PD) is owned by that
+   session in the registry (leased to it in a pool containing it, or recorded for it in its VRF's static ledger);
+   for PPPoE the recorded IPv4 address is the IPCP-told one (or none), and the told one is owned while live. *)
+Theorem C02_told_is_recorded :
+  forall ps ss st,
+  NoDup (map pool_id ps) -> Forall pool_wf ps -> kinds_ok (mkReg ps []) ->
+  NoDup (map s_id ss) -> Forall fresh_sess ss ->
+  reach Repaired (init_state ps ss) st ->
+  forall s, In s (st_sess st) ->
+    (forall f x, holds s f = Some x -> owns (st_reg st) f (s_vrf s) x (s_id s)) /\
+    (s_ppp s = true ->
+       (s_a4 s = None \/ s_a4 s = s_told s) /\
+       (s_live s = true -> forall t, s_told s = Some t -> owns (st_reg st) F4 (s_vrf s) (t, 0) (s_id s))).
+Proof. exact told_is_recorded_all. Qed.
+Print Assumptions C02_told_is_recorded.
+
+(* C02_unique — with pools of a family pairwise disjoint, in every reachable state two sessions of one VRF that
+   hold the same IPv4 address / IPv6 address / delegated prefix are the same session. *)
+Theorem C02_unique :
+  forall ps ss st,
+  NoDup (map pool_id ps) -> Forall pool_wf ps -> kinds_ok (mkReg ps []) -> pools_disjoint (mkReg ps []) ->
+  NoDup (map s_id ss) -> Forall fresh_sess ss ->
+  reach Repaired (init_state ps ss) st ->
+  forall s1 s2 f x, In s1 (st_sess st) -> In s2 (st_sess st) -> s_vrf s1 = s_vrf s2 ->
+    holds s1 f = Some x -> holds s2 f = Some x -> s1 = s2.
+Proof. exact unique_all. Qed.
+Print Assumptions C02_unique.
 
 (* initial registries built from address ranges are well-formed *)
 Theorem C02_initial_pools_wf :
@@ -154,3 +175,25 @@ Proof.
   intros p q x Hp Hq _ _ _. simpl in Hp, Hq. destruct Hp as [<-|[]], Hq as [<-|[]]. reflexivity.
 Qed.
 Print Assumptions C02_nonvacuous.
+
+(* non-vacuity of C02_unique / C02_told_is_recorded: a configuration meeting every hypothesis, a reachable state in
+   which two live sessions of one VRF hold (different) addresses *)
+Definition w4_ps := [new_pool F4 1 0 0 (GRange a1 a2 [])].
+Definition w4_ss := [new_sess 1 true (Some 0) None 1; new_sess 2 false (Some 0) None 2].
+Definition w4_ops := [PA 1 0 None None None None None None; ID true 2 0 None None; PI 1 (Some a1)].
+Example C02_unique_nonvacuous :
+  NoDup (map pool_id w4_ps) /\ Forall pool_wf w4_ps /\ kinds_ok (mkReg w4_ps []) /\ pools_disjoint (mkReg w4_ps []) /\
+  NoDup (map s_id w4_ss) /\ Forall fresh_sess w4_ss /\
+  (let st := run_first Repaired (init_state w4_ps w4_ss) w4_ops in
+   reach Repaired (init_state w4_ps w4_ss) st /\
+   holds_of st 1 F4 = Some (a1, 0) /\ holds_of st 2 F4 = Some (a2, 0)).
+Proof.
+  split; [simpl; constructor; [simpl; tauto|constructor]|].
+  split; [constructor; [apply new_pool_wf_range|constructor]|].
+  split; [intros p [<-|[]] _ sl; reflexivity|].
+  split; [intros p q x [<-|[]] [<-|[]] _ _ _; reflexivity|].
+  split; [simpl; constructor; [simpl; intros [H|[]]; discriminate H|constructor; [simpl; tauto|constructor]]|].
+  split; [constructor; [apply fresh_new|constructor; [apply fresh_new|constructor]]|].
+  split; [apply run_first_reach; constructor|vm_compute; split; reflexivity].
+Qed.
+Print Assumptions C02_unique_nonvacuous.
